@@ -27,6 +27,7 @@ type hdGenOpts struct {
 	perms          bool
 	gatedAlways    bool
 	virtual        bool
+	v2             bool // protocol 2.0 hellos (good tokens and mutated ones)
 }
 
 type hdGen struct {
@@ -42,6 +43,7 @@ type hdGen struct {
 	blocked   map[int]bool
 	tag       int
 	dropped   []int // connections whose session may still be resumable
+	nb        int   // configured backends
 }
 
 func (g *hdGen) pickConn() int {
@@ -331,6 +333,27 @@ func (g *hdGen) hello(c int) hdOp {
 		if r.chance(6) {
 			bk = 2 + r.intn(2)
 		}
+		if g.opts.v2 && r.chance(70) {
+			nb := g.nb
+			bk = r.intn(nb)
+			if r.chance(6) {
+				bk = nb + r.intn(2)
+			}
+			tb := bk
+			if tb >= nb {
+				tb = r.intn(nb)
+			}
+			tok := hdV2Good(r, tb)
+			good := bk < nb
+			if r.chance(55) {
+				tok = hdV2Mutate(r, tb, nb, tok)
+				good = false
+			}
+			if good {
+				g.auth[c] = bk
+			}
+			return hdOp{K: "hello", C: c, B: bk, U: r.intn(4), V2: tok}
+		}
 		rej := r.chance(8)
 		if bk < 2 && !rej {
 			g.auth[c] = bk
@@ -474,6 +497,12 @@ func (g *hdGen) op() hdOp {
 func hdGenCase(r *vrng, id int, opts hdGenOpts, n int) *hdCase {
 	g := &hdGen{r: r, opts: opts, blocked: map[int]bool{}, auth: map[int]int{}, intern: map[int]bool{}, rsOf: map[int]int{}, rsBackend: map[int]int{}}
 	c := &hdCase{Id: id, Mode: 1, Backends: []hdBackendCfg{{}, {}}}
+	g.nb = 2
+	if opts.v2 && r.chance(40) {
+		// four tenants: backends 0 and 3 publish keys of the same family
+		c.Backends = append(c.Backends, hdBackendCfg{}, hdBackendCfg{})
+		g.nb = 4
+	}
 	if (opts.media && r.chance(40)) || opts.gatedAlways {
 		c.Gated = true
 		g.gated = true
